@@ -174,6 +174,8 @@ def check_C01(tier, seed):
     progs += run.export("GenQuery", "G1-sim", "PROG", constants=dict(
         G="G12", NV=1, LeafLimit=49, MaxLeaves=4 if quick else 6, MaxNot=2, NeedNot=False),
         simulate=1500 if quick else 20000, depth=14 if quick else 22)
+    progs += run.export("GenQuery", "G1-leaves", "PROG", constants=dict(G="G12", NV=1, LeafLimit=70, MaxLeaves=1, MaxNot=1,
+                                                                        NeedNot=False), count=False)
     cov = datasets.covering_world(9)
     for p in progs:
         dom = list(range(1, 10))
@@ -202,6 +204,9 @@ def _programs(run, nv, quick, need_not=False, tag="", leaf_quick=None, leaf_full
     progs += run.export("GenQuery", f"G{nv}{tag}-sim", "PROG", constants=dict(
         G="G12", NV=nv, LeafLimit=full, MaxLeaves=4 if quick else 6, MaxNot=2, NeedNot=need_not),
         simulate=sim_quick if quick else sim_full, depth=14 if quick else 22)
+    # every leaf of the full vocabulary at least alone, with and without not_ (less common API forms sit at its end)
+    progs += run.export("GenQuery", f"G{nv}{tag}-leaves", "PROG", constants=dict(
+        G="G12", NV=nv, LeafLimit=full + 20, MaxLeaves=1, MaxNot=1, NeedNot=need_not), count=False)
     return progs
 
 
@@ -241,7 +246,8 @@ def check_C02(tier, seed):
             three = run.export("GenQuery", "G2-3leaves", "PROG", constants=dict(G="G12", NV=2, LeafLimit=6 if quick else 9, MaxLeaves=3,
                                                                                  MaxNot=0, NeedNot=False), invariants=("Export", "WellFormed"))
             three = [p for p in three if count_nodes(p["cond"], "cmp") + count_nodes(p["cond"], "in") == 3]
-            progs += rng.sample(three, min(len(three), 1500 if quick else 40000))
+            three = rng.sample(three, min(len(three), 1500 if quick else 40000))
+            progs += three + three          # each on two worlds: the interesting cases depend on the enumeration order of the data
         for p in progs:
             for _ in range(1 if quick else 2):
                 W, doms = _world_and_doms(rng, nv, quick)
